@@ -149,7 +149,11 @@ def build(rng, T, mask, sign, kind=None, rel=0.02, prange=None, padding_ok=True,
         # central value exactly 0.0, fluctuations not (an observable minus its mean): checklist 16
         for t in range(T):
             if entries[t] is not None and rng.random() < 0.25:
-                entries[t] = entries[t] - entries[t].value
+                # exactly zero, or next to zero on either side (decisions about the sign / the vanishing of a value must be exact)
+                off = float(rng.choice([0.0, 0.0, 1e-12, -1e-12])) * (abs(entries[t].value) if rng.random() < 0.5 else 1.0)
+                entries[t] = (entries[t] - entries[t].value) + off
+                if off != 0.0 and ctx is not None:
+                    ctx.count('timeslices_with_value_next_to_zero')
         kind += ' with zero-valued timeslices'
         if ctx is not None:
             ctx.count('correlators_with_zero_valued_entries')
